@@ -28,7 +28,7 @@ UnE(e) ==
     [] e.t = "flt"  -> FloatLit(e)
     [] e.t = "str"  -> IF e.q = "bq" THEN <<"BQ">> \o e.s \o <<"BQ">> ELSE <<"QUOT">> \o EncDQ(e.s) \o <<"QUOT">>
     [] e.t = "bool" -> IF e.b THEN <<"true">> ELSE <<"false">>
-    [] e.t = "id"   -> <<e.n>>
+    [] e.t = "id"   -> <<e.id>>
     [] e.t = "not"  -> <<"!">> \o UnE(e.e)
     [] e.t = "bin"  -> UnE(e.l) \o <<" ", e.op, " ">> \o UnE(e.r)
     [] e.t = "par"  -> <<"(">> \o UnE(e.e) \o <<")">>
@@ -63,7 +63,7 @@ Flt(n, e)   == [t |-> "flt", num |-> n, exp |-> e]
 Str(s)      == [t |-> "str", q |-> "dq", s |-> s]
 BStr(s)     == [t |-> "str", q |-> "bq", s |-> s]
 Bool(b)     == [t |-> "bool", b |-> b]
-Id(n)       == [t |-> "id", n |-> n]
+Id(n)       == [t |-> "id", id |-> n]
 Not(e)      == [t |-> "not", e |-> e]
 Bin(op, l, r) == [t |-> "bin", op |-> op, l |-> l, r |-> r]
 Par(e)      == [t |-> "par", e |-> e]
